@@ -100,6 +100,28 @@ class Oracle:
                 return self._v(clause, "foreign file %s was modified" % p, obs)
         return None
 
+    def _other_cache_check(self, obs):
+        """two named caches of one process must not touch each other's directory"""
+        if obs.other_pre is None or obs.crashed or obs.busy_before or obs.busy_after:
+            return None
+        clause = "19c-other-cache" if self.c19 else "18g-other-cache"
+        if obs.kind == "OTHER_GET":
+            if obs.exc is None:
+                a = {p: (e[0], e[1], e[4]) for p, e in obs.pre.items()}
+                b = {p: (e[0], e[1], e[4]) for p, e in obs.post.items()}
+                if a != b:
+                    return self._v(clause, "a request to the second named cache changed the first cache's directory", obs)
+                if isinstance(obs.result, list):
+                    for p in obs.result:
+                        if not (isinstance(p, str) and p.startswith("/SIMFS/othercache/")):
+                            return self._v(clause, "the second named cache returned a path outside its own directory: %r" % (p,), obs)
+            return None
+        if obs.kind in ("OPEN", "REOPEN", "PURGE"):
+            return None  # (re)creation of the caches writes the second cache's config
+        if obs.other_pre != obs.other_post:
+            return self._v(clause, "an operation on the first cache changed the second named cache's directory", obs)
+        return None
+
     # ----------------------------------------------------------------- entry
     def check(self, obs):
         if self.ended:
@@ -110,6 +132,9 @@ class Oracle:
         if obs.busy_before == 0 and self.volatile:
             self.volatile = set()
         v = self._foreign_check(obs)
+        if v:
+            return v
+        v = self._other_cache_check(obs)
         if v:
             return v
         if kind in ("OPEN", "REOPEN"):
